@@ -7,6 +7,7 @@ package main
 //   binary_rw_structs : struct types serialised raw          binrw_structs : struct types through BinRead/BinWrite
 //   bin_passthrough   : functions that forward an interface{} parameter (expected: the wrappers themselves)
 //   bin_other         : anything that is neither a fixed-size scalar, a byte array/slice nor a named struct
+//   bin_forwarders    : other functions forwarding a parameter of theirs to one of the above (their call sites are classified too)
 
 import (
 	"fmt"
@@ -67,77 +68,144 @@ func coqStrList(name string, set map[string]bool) string {
 	return sb.String()
 }
 
-func emitBinArgs(repo string, pkgs map[string]*packages.Package, cfgName string, outdir string) {
-	raw, padded, pass, other := map[string]bool{}, map[string]bool{}, map[string]bool{}, map[string]bool{}
-	ncalls := 0
-	for _, p := range pkgs {
-		for _, f := range p.Syntax {
-			fname := p.Fset.Position(f.Pos()).Filename
-			if strings.HasSuffix(fname, "_test.go") {
-				continue
+// paramIndex returns the position of the parameter that identifier e names in fd's signature, or -1.
+func paramIndex(p *packages.Package, fd *ast.FuncDecl, e ast.Expr) int {
+	for {
+		if pe, ok := e.(*ast.ParenExpr); ok {
+			e = pe.X
+			continue
+		}
+		break
+	}
+	id, ok := e.(*ast.Ident)
+	if !ok || fd.Recv != nil {
+		return -1
+	}
+	obj := p.TypesInfo.Uses[id]
+	if obj == nil {
+		return -1
+	}
+	k := 0
+	for _, fld := range fd.Type.Params.List {
+		if len(fld.Names) == 0 {
+			k++
+			continue
+		}
+		for _, nm := range fld.Names {
+			if p.TypesInfo.Defs[nm] == obj {
+				return k
 			}
-			for _, d := range f.Decls {
-				fd, ok := d.(*ast.FuncDecl)
-				if !ok || fd.Body == nil {
+			k++
+		}
+	}
+	return -1
+}
+
+func emitBinArgs(repo string, pkgs map[string]*packages.Package, cfgName string, outdir string) {
+	// A function that hands one of its own interface-typed parameters on to a serialiser is a forwarder: it is
+	// treated as a serialiser itself (its call sites are classified) — iterated to a fixpoint. The six functions
+	// of binFuncs are the expected wrappers; any other forwarder is listed in bin_forwarders.
+	funcs := map[string]struct {
+		arg int
+		raw bool
+	}{}
+	for k, v := range binFuncs {
+		funcs[k] = v
+	}
+	var raw, padded, pass, other, fwd map[string]bool
+	ncalls := 0
+	for changed := true; changed; {
+		changed = false
+		raw, padded, pass, other, fwd = map[string]bool{}, map[string]bool{}, map[string]bool{}, map[string]bool{}, map[string]bool{}
+		ncalls = 0
+		for _, p := range pkgs {
+			for _, f := range p.Syntax {
+				fname := p.Fset.Position(f.Pos()).Filename
+				if strings.HasSuffix(fname, "_test.go") {
 					continue
 				}
-				ast.Inspect(fd.Body, func(n ast.Node) bool {
-					call, ok := n.(*ast.CallExpr)
-					if !ok {
-						return true
+				for _, d := range f.Decls {
+					fd, ok := d.(*ast.FuncDecl)
+					if !ok || fd.Body == nil {
+						continue
 					}
-					var id *ast.Ident
-					switch fn := call.Fun.(type) {
-					case *ast.Ident:
-						id = fn
-					case *ast.SelectorExpr:
-						id = fn.Sel
-					}
-					if id == nil {
-						return true
-					}
-					obj, ok := p.TypesInfo.Uses[id].(*types.Func)
-					if !ok || obj.Pkg() == nil {
-						return true
-					}
-					spec, ok := binFuncs[obj.Pkg().Path()+"."+obj.Name()]
-					if !ok || spec.arg >= len(call.Args) {
-						return true
-					}
-					ncalls++
-					t := p.TypesInfo.TypeOf(call.Args[spec.arg])
-					if ptr, ok := t.Underlying().(*types.Pointer); ok {
-						t = ptr.Elem()
-					}
-					switch {
-					case types.IsInterface(t):
-						pass[fd.Name.Name] = true
-					case fixedScalar(t):
-					default:
-						if named, ok := t.(*types.Named); ok {
-							if _, ok := named.Underlying().(*types.Struct); ok {
-								if spec.raw {
-									raw[named.Obj().Name()] = true
-								} else {
-									padded[named.Obj().Name()] = true
-								}
-								return true
-							}
+					ast.Inspect(fd.Body, func(n ast.Node) bool {
+						call, ok := n.(*ast.CallExpr)
+						if !ok {
+							return true
 						}
-						other[fd.Name.Name+":"+t.String()] = true
-					}
-					return true
-				})
+						var id *ast.Ident
+						switch fn := call.Fun.(type) {
+						case *ast.Ident:
+							id = fn
+						case *ast.SelectorExpr:
+							id = fn.Sel
+						}
+						if id == nil {
+							return true
+						}
+						obj, ok := p.TypesInfo.Uses[id].(*types.Func)
+						if !ok || obj.Pkg() == nil {
+							return true
+						}
+						if sig, ok := obj.Type().(*types.Signature); ok && sig.Recv() != nil {
+							return true
+						}
+						spec, ok := funcs[obj.Pkg().Path()+"."+obj.Name()]
+						if !ok || spec.arg >= len(call.Args) {
+							return true
+						}
+						ncalls++
+						t := p.TypesInfo.TypeOf(call.Args[spec.arg])
+						if ptr, ok := t.Underlying().(*types.Pointer); ok {
+							t = ptr.Elem()
+						}
+						switch {
+						case types.IsInterface(t):
+							key := p.PkgPath + "." + fd.Name.Name
+							if _, wrapper := binFuncs[key]; wrapper || fd.Recv != nil {
+								pass[fd.Name.Name] = true
+							} else if k := paramIndex(p, fd, call.Args[spec.arg]); k >= 0 {
+								fwd[fd.Name.Name] = true
+								if _, known := funcs[key]; !known {
+									funcs[key] = struct {
+										arg int
+										raw bool
+									}{k, spec.raw}
+									changed = true
+								}
+							} else {
+								pass[fd.Name.Name] = true
+							}
+						case fixedScalar(t):
+						default:
+							if named, ok := t.(*types.Named); ok {
+								if _, ok := named.Underlying().(*types.Struct); ok {
+									if spec.raw {
+										raw[named.Obj().Name()] = true
+									} else {
+										padded[named.Obj().Name()] = true
+									}
+									return true
+								}
+							}
+							other[fd.Name.Name+":"+t.String()] = true
+						}
+						return true
+					})
+				}
 			}
 		}
 	}
 	var sb strings.Builder
 	sb.WriteString("(* GENERATED by gosync from the Go source; do not edit. Configuration: " + cfgName + " *)\n")
 	sb.WriteString("From Coq Require Import List String.\nImport ListNotations.\nLocal Open Scope string_scope.\n\n")
-	fmt.Fprintf(&sb, "(* %d calls of BinaryRead/BinaryWrite/BinRead/BinWrite/AppendRecord/SubstituteRecord *)\n", ncalls)
+	fmt.Fprintf(&sb, "(* %d calls of BinaryRead/BinaryWrite/BinRead/BinWrite/AppendRecord/SubstituteRecord and of the forwarders below *)\n", ncalls)
 	sb.WriteString(coqStrList("binary_rw_structs", raw))
 	sb.WriteString(coqStrList("binrw_structs", padded))
 	sb.WriteString(coqStrList("bin_passthrough", pass))
 	sb.WriteString(coqStrList("bin_other", other))
+	sb.WriteString("(* functions that hand one of their own parameters on to a serialiser; their call sites are classified above like the serialisers' *)\n")
+	sb.WriteString(coqStrList("bin_forwarders", fwd))
 	writeIfChanged(filepath.Join(outdir, "BinArgs_"+cfgName+".v"), []byte(sb.String()))
 }
